@@ -11,6 +11,8 @@ import contextlib
 
 P_FIN_A = "c = 0\nx = 0\nwhile true:\n    c = DiscreteUniform(0, 2)\n    x = x + c**2\nend\n"
 P_FIN_B = "d = 2\ny = 1\nwhile true:\n    d = 0 {1/2} 1 {1/4} 2\n    y = y + d**3 - d\nend\n"
+P_FIN_C = "c = 0\nx = 0\nwhile true:\n    c = 0 {1/2} 1 {1/4} 3\n    x = x + c**2\nend\n"
+P_FIN_D = "c = 1\nx = 0\nwhile true:\n    c = 1 {1/2} -1\n    x = x + c\nend\n"
 P_TRIG = "g = 0\nx = 0\nwhile true:\n    g = Normal(0, 1)\n    s = Cos(g)\n    x = x + s\nend\n"
 P_TRIG_LAG = "y = 0\ns = 5\nx = 0\nwhile true:\n    g = Normal(0, 1)\n    y = y + s\n    s = Cos(g)\n    x = x + g\nend\n"
 P_CAT = "c = 1\nx = 0\nwhile true:\n    x = x + 1 {1/2} x - 1\n    c = 0 {1/3} 1\n    if c == 1:\n        x = x + c\n    end\nend\n"
@@ -118,6 +120,8 @@ def _sens(text, goal, param):
 OPS = {
     "finA": lambda: _moments(P_FIN_A, ["x", "x**2", "c**3"]),
     "finB": lambda: _moments(P_FIN_B, ["y", "y**2", "d**3"]),
+    "finC": lambda: _moments(P_FIN_C, ["x", "x**2", "c**3"]),
+    "finD": lambda: _moments(P_FIN_D, ["x", "x**2", "c**3"]),
     "trig_exact": lambda: _moments(P_TRIG, ["x", "x**2"], {"exact_func_moments": True}),
     "trig_rounded": lambda: _moments(P_TRIG, ["x", "x**2"], {"exact_func_moments": False}),
     "trig_lag": lambda: _moments(P_TRIG_LAG, ["y", "x**2"], {"exact_func_moments": True}),
